@@ -73,6 +73,9 @@ func newCipher(idx int, key []byte) (obj ikeCrypto.IKECrypto, res callRes) {
 	return
 }
 
+// generator of the in-between operations of suites whose own generator is not passed down
+var noiseGen = NewGen(20240917)
+
 // one Encrypt call; ct is whatever the call returned next to its error
 func cbcEnc(obj ikeCrypto.IKECrypto, pt []byte) (res callRes, ct []byte) {
 	in := exact(pt)
@@ -88,14 +91,19 @@ func cbcEnc(obj ikeCrypto.IKECrypto, pt []byte) (res callRes, ct []byte) {
 }
 
 func cbcDec(obj ikeCrypto.IKECrypto, ct []byte) callRes {
-	in := exact(ct)
-	return guard(func() (string, error) {
+	roCtr++
+	in, changed := roBuf(ct, roCtr%2 == 0)
+	r := guard(func() (string, error) {
 		p, err := obj.Decrypt(in)
 		if err != nil {
 			return "", err
 		}
 		return hx(p), nil
 	})
+	if w := changed(); w != "" && r.kind != "panic" {
+		return callRes{kind: "panic", val: "Decrypt wrote into the ciphertext it was given: " + w}
+	}
+	return r
 }
 
 // what a textbook AES-CBC receiver that strips (pad-length octet + 1) octets returns
@@ -197,6 +205,9 @@ func (c *Ctx) c10Encrypt(g *Gen, corr *[]corrCase) {
 }
 
 func (c *Ctx) c10EncryptCase(s *SuiteStat, idx int, key, rnd, pt []byte, corr *[]corrCase, sample bool) {
+	if idx%7 == 3 {
+		libNoise(noiseGen)
+	}
 	line := cbcEncLine(key, rnd, -1, pt)
 	setCase(line)
 	fail := func(class, desc, exp, act string) {
